@@ -113,14 +113,17 @@ def writeTrace (st : MState) (k : Key) : MState :=
 
 /-- `_startTrace`: (re)create the file, buffer the header -/
 def startTrace (st : MState) (k : Key) : MState :=
-  match levelOf st k.1, st.slots k with
-  | some i, some s =>
-    let h := headerOf (st.loopOrder.take (i + 1))
-    let s' : Slot := ⟨s.file.map (· ++ [h]), s.mem.map (· ++ [h]), true⟩
-    { st with disk := if s.file.isSome then upd st.disk k (some []) else st.disk,
-              slots := upd st.slots k (some s'),
-              restarted := st.restarted || !(content st k).isEmpty || !(memAll st k).isEmpty }
-  | _, _ => { st with fault := true }
+  match levelOf st k.1 with
+  | none => { st with fault := true }
+  | some i =>
+    match st.slots k with
+    | none => { st with fault := true }
+    | some s =>
+      let h := headerOf (st.loopOrder.take (i + 1))
+      let s' : Slot := ⟨s.file.map (· ++ [h]), s.mem.map (· ++ [h]), true⟩
+      { st with disk := if s.file.isSome then upd st.disk k (some []) else st.disk,
+                slots := upd st.slots k (some s'),
+                restarted := st.restarted || !(content st k).isEmpty || !(memAll st k).isEmpty }
 
 def startRank (st : MState) (r : String) : MState :=
   (st.declared.filter (fun k => k.1 = r)).foldl startTrace st
